@@ -105,6 +105,22 @@ func aliasClosure(seeds []ssa.Value) (derived map[ssa.Value]bool, uses []use) {
 								push(u)
 							}
 						}
+					} else if fvs, ok := capturedLocally(a); ok {
+						// a local captured by closures that are only called where they were made: the cell is still a local
+						// variable — its loads, here and through the closures' free variables, carry the value on
+						uses = append(uses, use{Kind: "spill", Instr: r, Val: v})
+						for _, ar := range *a.Referrers() {
+							if u, ok := ar.(*ssa.UnOp); ok && u.Op == token.MUL {
+								push(u)
+							}
+						}
+						for _, fv := range fvs {
+							for _, fr := range *fv.Referrers() {
+								if u, ok := fr.(*ssa.UnOp); ok && u.Op == token.MUL {
+									push(u)
+								}
+							}
+						}
 					} else {
 						uses = append(uses, use{Kind: "store-other", Instr: r, Val: v, Desc: "stored into the address-taken local " + a.Comment})
 					}
@@ -233,4 +249,66 @@ func instrKind(in ssa.Instruction) string {
 		return "branch"
 	}
 	return "instruction"
+}
+
+// capturedLocally: the address of local a goes nowhere but into closures that are themselves only called (never stored, passed or
+// returned), and is otherwise only stored to and loaded from. It returns the closures' free variables bound to a.
+func capturedLocally(a *ssa.Alloc) ([]*ssa.FreeVar, bool) {
+	var fvs []*ssa.FreeVar
+	n := 0
+	for _, r := range *a.Referrers() {
+		switch x := r.(type) {
+		case *ssa.DebugRef:
+		case *ssa.Store:
+			if x.Addr != ssa.Value(a) {
+				return nil, false
+			}
+		case *ssa.UnOp:
+			if x.Op != token.MUL {
+				return nil, false
+			}
+		case *ssa.MakeClosure:
+			fn, ok := x.Fn.(*ssa.Function)
+			if !ok {
+				return nil, false
+			}
+			for _, cr := range *x.Referrers() {
+				switch c := cr.(type) {
+				case *ssa.DebugRef:
+				case *ssa.Call:
+					if c.Call.Value != ssa.Value(x) {
+						return nil, false
+					}
+				default:
+					return nil, false
+				}
+			}
+			for i, b := range x.Bindings {
+				if b == ssa.Value(a) && i < len(fn.FreeVars) {
+					fv := fn.FreeVars[i]
+					// inside the closure the free variable is only stored through and loaded from
+					for _, fr := range *fv.Referrers() {
+						switch y := fr.(type) {
+						case *ssa.DebugRef:
+						case *ssa.UnOp:
+							if y.Op != token.MUL {
+								return nil, false
+							}
+						case *ssa.Store:
+							if y.Addr != ssa.Value(fv) {
+								return nil, false
+							}
+						default:
+							return nil, false
+						}
+					}
+					fvs = append(fvs, fv)
+					n++
+				}
+			}
+		default:
+			return nil, false
+		}
+	}
+	return fvs, n > 0
 }
